@@ -160,7 +160,13 @@ class SSHForwarder(asyncio.BaseProtocol):
         if self._peer:
             self._peer.write_eof()
 
-            return not self._peer.was_eof_received()
+            if self._peer.was_eof_received():
+                # Both directions are done. Close here, as a channel
+                # which has already sent EOF isn't closed automatically
+                self.close()
+                return False
+
+            return True
         else:
             return True
 
